@@ -313,3 +313,154 @@ func Class(name string) string {
 }
 
 var _ = sort.Strings
+
+// ---- identity API sequences -------------------------------------------------------------------
+//
+// All sequences of length <= maxLen over {meta, id, name, commit} on a freshly created identity
+// (the editing API a front end or a bridge drives). Oracle from the statement: the id, once
+// observed, never changes; after every commit the identity can be read back under that id, with
+// exactly the versions the API built, each earlier stored version unchanged (append-only).
+
+// SeqResult is what one sequence showed.
+type SeqResult struct {
+	Seq      string `json:"seq"`
+	Problem  string `json:"problem,omitempty"`
+	Sig      string `json:"sig,omitempty"`
+	Versions int    `json:"versions"`
+}
+
+var seqAlphabet = []string{"meta", "id", "name", "commit"}
+
+// Sequences enumerates all sequences up to maxLen, shortest first.
+func Sequences(maxLen int) [][]string {
+	out := [][]string{}
+	var rec func(cur []string)
+	rec = func(cur []string) {
+		if len(cur) > 0 {
+			out = append(out, append([]string{}, cur...))
+		}
+		if len(cur) == maxLen {
+			return
+		}
+		for _, a := range seqAlphabet {
+			rec(append(cur, a))
+		}
+	}
+	rec(nil)
+	sort.SliceStable(out, func(i, j int) bool { return len(out[i]) < len(out[j]) })
+	return out
+}
+
+// RunSequence executes one sequence on a fresh repository.
+func RunSequence(seq []string) (res SeqResult) {
+	res.Seq = strings.Join(seq, " ")
+	defer func() {
+		if r := recover(); r != nil {
+			res.Problem, res.Sig = fmt.Sprintf("panic: %v", r), "panic"
+		}
+	}()
+	dir, err := os.MkdirTemp(world.ScratchRoot(), "c09seq")
+	if err != nil {
+		res.Problem, res.Sig = err.Error(), "harness"
+		return
+	}
+	defer os.RemoveAll(dir)
+	vctl.Activate(3, 0)
+	defer vctl.Deactivate()
+	vctl.SetActor("S")
+	w, err := world.Create(dir, []string{"S"}, nil, false)
+	if err != nil {
+		res.Problem, res.Sig = err.Error(), "harness"
+		return
+	}
+	defer w.Close()
+	repo := w.Repos["S"]
+	i, err := identity.NewIdentity(repo, "seq user", "s@example.org")
+	if err != nil {
+		res.Problem, res.Sig = err.Error(), "harness"
+		return
+	}
+	var seenId entity.Id
+	observe := func(step string) bool {
+		id := i.Id()
+		if seenId == "" {
+			seenId = id
+			return true
+		}
+		if id != seenId {
+			res.Problem = fmt.Sprintf("after %q the identity reports id %s, earlier it reported %s", step, id, seenId)
+			res.Sig = "id-changed"
+			return false
+		}
+		return true
+	}
+	var stored [][]repository.Hash // chains read back after each commit
+	n := 0
+	for k, a := range seq {
+		n++
+		switch a {
+		case "meta":
+			i.SetMetadata(fmt.Sprintf("key%d", k), fmt.Sprintf("value%d", k))
+		case "id":
+			if !observe("id") {
+				return
+			}
+		case "name":
+			if err := i.Mutate(repo, func(m *identity.Mutator) { m.Name = fmt.Sprintf("seq user %d", k) }); err != nil {
+				res.Problem, res.Sig = "Mutate: "+err.Error(), "mutate-fails"
+				return
+			}
+		case "commit":
+			if !i.NeedCommit() {
+				continue
+			}
+			if err := i.Commit(repo); err != nil {
+				res.Problem, res.Sig = "Commit of API-built versions fails: "+err.Error(), "commit-fails"
+				return
+			}
+			if !observe("commit") {
+				return
+			}
+			back, err := identity.ReadLocal(repo, seenId)
+			if err != nil {
+				res.Problem = fmt.Sprintf("after commit the identity cannot be read back under its id %s: %v", seenId, err)
+				res.Sig = "unreadable-after-commit"
+				return
+			}
+			if back.Id() != seenId {
+				res.Problem, res.Sig = fmt.Sprintf("read back id %s, in memory %s", back.Id(), seenId), "id-changed-on-disk"
+				return
+			}
+			if err := back.Validate(); err != nil {
+				res.Problem, res.Sig = "stored identity invalid: "+err.Error(), "stored-invalid"
+				return
+			}
+			var chain []repository.Hash
+			h, _ := repo.ResolveRef("refs/identities/" + string(seenId))
+			for h != "" {
+				chain = append([]repository.Hash{h}, chain...)
+				c, err := repo.ReadCommit(h)
+				if err != nil || len(c.Parents) == 0 {
+					break
+				}
+				h = c.Parents[0]
+			}
+			if len(stored) > 0 {
+				prev := stored[len(stored)-1]
+				if len(chain) < len(prev) {
+					res.Problem, res.Sig = "stored history shrank", "history-rewritten"
+					return
+				}
+				for x := range prev {
+					if prev[x] != chain[x] {
+						res.Problem, res.Sig = fmt.Sprintf("stored version %d was rewritten by a later commit", x), "history-rewritten"
+						return
+					}
+				}
+			}
+			stored = append(stored, chain)
+			res.Versions = len(chain)
+		}
+	}
+	return
+}
